@@ -601,6 +601,20 @@ def _r5(run, prog, classes):
                     continue
                 ev.env[key] = val
     walk(fn.body)
+    # every bin gets its density from the bin integral: a value written into the density / power arrays outside the loop over the bins
+    # (a special-cased bin count) bypasses it
+    in_loops = {id(x) for lp_ in ast.walk(fn) if isinstance(lp_, ast.For) for x in ast.walk(lp_)}
+    for st_ in ast.walk(fn):
+        if isinstance(st_, ast.Assign) and isinstance(st_.targets[0], ast.Subscript) and id(st_) not in in_loops:
+            base_ = ev.alias(dotted(st_.targets[0].value) or norm(st_.targets[0].value))
+            if base_ in ('self._power_spectral_density', 'self._power') and not (
+                    isinstance(st_.targets[0].slice, ast.Slice) and norm(st_.value) in ('0', '0.0')):
+                cond_ = [norm(i_.test) for i_ in ast.walk(fn) if isinstance(i_, ast.If) and any(y is st_ for y in ast.walk(i_))]
+                run.subject('C18-R5')
+                run.fail('C18-R5', K + 'special-case', ci.mod.relpath, st_.lineno,
+                         '_update_cache writes %s = %s%s without evaluating the bin integral: for that case the power in the bin is not the '
+                         'integral of the spectrum over the bin (a one-bin Gaussian whose range does not span the line holds less than the '
+                         'whole power)' % (norm(st_.targets[0]), norm(st_.value)[:40], ' when ' + cond_[0] if cond_ else ''))
     d = ev.env.get('self._delta_wavelength')
     run.subject('C18-R5')
     if d is not None and d.eq(delta):
